@@ -220,27 +220,55 @@ def main(chk):
             ok = ok and U(br.test) == 'propname in data' and (U(a.value) == 'True') == in_body
     chk.decide(ok, 'hdf5-keys', 'stored-flag', node=sp, file=OUT, func='HDFOutput._set_properties',
                detail_bad='stored flag does not mean "data for this property was written"', detail_ok='True iff propname in data')
-    # reader branches agree except for data
+    # every property is re-created with its type, default and stride, stored or not: the keywords that reach add_property on *every* path
+    # (explicit keywords, or the keys of a ** dictionary that were put in by statements dominating the call)
     adds = [c for c in M.calls(gpart) if isinstance(c.func, ast.Attribute) and c.func.attr == 'add_property']
-    chk.floor('add_property calls in hdf5 reader', len(adds), 2)
-    sigs = []
-    for c in adds:
-        kws = dict((k.arg, U(k.value)) for k in c.keywords)
-        pos = [U(a) for a in c.args]
-        sigs.append((c, pos, kws))
-    base = None
-    for c, pos, kws in sigs:
-        k2 = dict((k, v) for k, v in kws.items() if k != 'data')
-        if base is None:
-            base = (pos, k2)
-        missing = set(base[1]) ^ set(k2)
-        chk.decide((pos, k2) == base and {'type', 'default', 'stride'} <= set(k2), 'hdf5-reader-branches-agree',
-                   'add_property@%s' % ('stored' if 'data' in kws else 'unstored'), node=c, file=OUT, func='HDFOutput._get_particles',
-                   detail_bad='stored and unstored properties are re-created with different attributes: %s vs %s (type, default, stride required in both)' % (
-                       sorted(k2), sorted(base[1])), detail_ok='name, ' + ', '.join(sorted(k2)))
+    chk.floor('add_property calls in hdf5 reader', len(adds), 1)
+    M.set_parents(gpart)
+    gg = C.build_cfg(gpart)
+
+    def stmt_of(n):
+        while not isinstance(n, ast.stmt):
+            n = n.parent
+        return n
+
+    def guaranteed(c):
+        keys = dict((k.arg, U(k.value)) for k in c.keywords if k.arg is not None)
+        cn = gg.node_of(stmt_of(c))
+        for k in c.keywords:
+            if k.arg is None and isinstance(k.value, ast.Name):
+                dn = k.value.id
+                for st in ast.walk(gpart):
+                    sn = gg.node_of(st) if isinstance(st, ast.stmt) else None
+                    if sn is None or cn is None or not gg.dominates(sn, cn) or sn == cn:
+                        continue
+                    if isinstance(st, ast.Assign) and U(st.targets[0]) == dn:
+                        if isinstance(st.value, ast.Call) and M.call_name(st.value) == 'dict':
+                            keys.update((kk.arg, U(kk.value)) for kk in st.value.keywords if kk.arg)
+                        elif isinstance(st.value, ast.Dict):
+                            keys.update((M.const_str(kk), U(vv)) for kk, vv in zip(st.value.keys, st.value.values) if kk is not None)
+                    elif isinstance(st, ast.Assign) and isinstance(st.targets[0], ast.Subscript) and U(st.targets[0].value) == dn:
+                        keys[M.const_str(st.targets[0].slice)] = U(st.value)
+                    elif isinstance(st, ast.Expr) and isinstance(st.value, ast.Call) and M.call_name(st.value) == dn + '.update':
+                        keys.update((kk.arg, U(kk.value)) for kk in st.value.keywords if kk.arg)
+        return keys
+    for i, c in enumerate(adds):
+        keys = guaranteed(c)
+        need = {'type', 'default', 'stride'}
+        chk.decide(need <= set(keys), 'hdf5-reader-branches-agree', 'add_property#%d' % i, node=c, file=OUT, func='HDFOutput._get_particles',
+                   detail_bad='a property is re-created without %s on some path (keywords reaching the call on every path: %s): a property that was not written - or any property - '
+                              'comes back with the default type / default value / stride 1' % (sorted(need - set(keys)), sorted(keys)),
+                   detail_ok='name, ' + ', '.join(sorted(keys)))
     # attribute values flow from the attribute of the same name
     for nm in ('default', 'stride'):
         d = [a for a in ast.walk(gpart) if isinstance(a, ast.Assign) and U(a.targets[0]) == nm]
+        if not d:
+            # passed inline: the value of the keyword itself
+            vals_ = [guaranteed(c).get(nm) for c in adds]
+            ok = all(v is not None and ("'%s'" % nm) in v and 'h5obj.attrs' in v for v in vals_)
+            chk.decide(ok, 'hdf5-keys', 'reader-value:' + nm, node=gpart, file=OUT, func='HDFOutput._get_particles',
+                       detail_bad='%s is not read from attribute %r' % (nm, nm), detail_ok=str(vals_))
+            continue
         ok = bool(d) and ("'%s'" % nm) in U(d[0].value) and 'h5obj.attrs' in U(d[0].value)
         chk.decide(ok, 'hdf5-keys', 'reader-value:' + nm, node=d[0] if d else gpart, file=OUT, func='HDFOutput._get_particles',
                    detail_bad='%s is not read from attribute %r' % (nm, nm), detail_ok=U(d[0].value) if d else '')
@@ -267,6 +295,22 @@ def main(chk):
     chk.decide(ok, 'hdf5-keys', 'solver-data', node=ssd, file=OUT, func='HDFOutput._set_solver_data',
                detail_bad='solver data is not stored/restored key by key', detail_ok='attrs[name] = data / attrs.items()')
 
+    # what is read back is the attribute value itself: the reader must not convert it (a one-element list or array is not a scalar)
+    M.set_parents(gsd)
+    for lp in [l for l in ast.walk(gsd) if isinstance(l, ast.For) and 'attrs.items()' in U(l.iter)]:
+        tv = lp.target.elts[1].id if isinstance(lp.target, ast.Tuple) and len(lp.target.elts) == 2 and isinstance(lp.target.elts[1], ast.Name) else None
+        stores = [a for a in ast.walk(lp) if isinstance(a, ast.Assign) and isinstance(a.targets[0], ast.Subscript)]
+        redef = [a for a in ast.walk(lp) if isinstance(a, (ast.Assign, ast.AugAssign)) and U(a.targets[0] if isinstance(a, ast.Assign) else a.target) == tv]
+        ok = tv is not None and bool(stores) and all(isinstance(a.value, ast.Name) and a.value.id == tv for a in stores) and not redef
+        chk.decide(ok, 'hdf5-keys', 'solver-data-unconverted', node=redef[0] if redef else lp, file=OUT, func='HDFOutput._get_solver_data',
+                   detail_bad='the solver-data value read from the file is changed before it is returned (%s): sequences and arrays with one element come back as scalars'
+                              % (U(redef[0]) if redef else [U(a.value) for a in stores]), detail_ok='solver_data[name] = value as read')
+    # only_real output slices with get_number_of_particles(True): that must be the real count itself (rule shared with C06)
+    import importlib.util
+    spec6 = importlib.util.spec_from_file_location('c06mod', os.path.join(os.path.dirname(os.path.abspath(__file__)), 'c06.py'))
+    c06 = importlib.util.module_from_spec(spec6)
+    spec6.loader.exec_module(c06)
+    c06.rule_count(chk, M.find_class(M.cy(PA), 'ParticleArray'))
     # ---- extension table
     lfn = M.find_func(out, 'load')
     tab_r = {}
